@@ -272,7 +272,15 @@ def check(ck):
     ck.require(okk and same_with, "C16.5", "%s: registration consumed where it is read" % q.fn(fn_), "read and reset in one critical section",
                "the notifier does not consume the registration in the critical section in which it reads it: two notifiers (execute's and "
                "set_callback's) can both invoke the same registration", q.loc(fn_, fn_.node))
-    ck.require(consumes and all(isinstance(n.ast, ast.Assign) and isinstance(n.ast.value, ast.Constant) and n.ast.value.value is None for n in consumes),
+    def _empty_marker(v_):
+        # None, or a module-level sentinel created by object() - the value the registration test compares with by identity
+        if isinstance(v_, ast.Constant) and v_.value is None:
+            return True
+        if isinstance(v_, ast.Name):
+            mv_ = prog.modules[TP].assigns.get(v_.id) if TP in prog.modules else None
+            return isinstance(mv_, ast.Call) and dump(mv_.func) == "object" and not mv_.args
+        return False
+    ck.require(consumes and all(isinstance(n.ast, ast.Assign) and _empty_marker(n.ast.value) for n in consumes),
                "C16.5", "%s: consumption resets the registration to None" % q.fn(fn_), "reset to None", "the registration is not reset", q.loc(fn_, fn_.node))
     # the invocation uses the consumed (local) copy, outside the lock
     ck.require(not cl.held(fn_, cn), "C16.5", "%s: callback invoked outside the lock" % q.fn(fn_), "no lock held during the callback",
@@ -287,8 +295,8 @@ def check(ck):
         raise AnalysisError("anchor vanished: the lock created by FutureResult.__init__")
     for n in lst16:
         alts16 = prov.value_alts(prov.origin(gi16, n, n.ast.value))
-        okk = all(a[0] == "call" and prov.show(a[1]) in ("threading.Lock", "threading.RLock", "Global(threading).Lock", "Global(threading).RLock")
-                  or (a[0] == "call" and a[1][0] == "attr" and a[1][2] in ("Lock", "RLock")) for a in alts16)
+        # (created by a call - threading.Lock(), or a factory the caller supplied - not an existing object handed in)
+        okk = all(a[0] == "call" and not a[2] and not a[3] for a in alts16)
         ck.require(okk, "C16.5", "%s: `%s`" % (q.fn(finit16), q.stmt_text(n)[:50]), "a lock of its own (threading.Lock())",
                    "the future's lock can be %s: a lock shared with another object (the pool holds its own while enqueue() blocks on a "
                    "full queue) delays or dead-locks the invocation of the callback at completion" % sorted(prov.show(a)[:40] for a in alts16),
@@ -300,7 +308,7 @@ def check(ck):
     tests = [n for n in gs.live_nodes() if n.kind == "test" and "is_set()" in dump(n.ast)]
     # (further stores on paths that never reach the test are clears - `set_callback(None)` un-registering - and store the constant None)
     def _is_clear(s_):
-        return isinstance(s_.ast, ast.Assign) and isinstance(s_.ast.value, ast.Constant) and s_.ast.value.value is None
+        return isinstance(s_.ast, ast.Assign) and _empty_marker(s_.ast.value)
     clears = [s_ for s_ in stores if len(tests) == 1 and s_.id not in ds[tests[0].id] and _is_clear(s_) and
               tests[0].id not in reachable_avoiding(gs, s_.id, set(), lambda l: True)]
     stores = [s_ for s_ in stores if s_ not in clears]
